@@ -685,7 +685,7 @@ def _realloc(ex, st, args, kwargs, node, spec):
 BUILTINS["PyMem_Realloc"] = _realloc
 
 
-@contract("_align.pyx", "Aligner._set_reference", props=["C01"])
+@contract("_align.pyx", "Aligner._set_reference", props=["C01", "C02"])
 def aligner_set_reference(c):
     c.types(self=SetRefT, reference=Str)
     c.modifies = ["self"]
